@@ -65,6 +65,10 @@ func main() {
 				continue
 			}
 			fmt.Fprintln(pf, id)
+			// replaying a schedule-dependent failure: the same case again and again
+			for reps, _ := strconv.Atoi(os.Getenv("VERIF_REPEAT")); reps > 1; reps-- {
+				gen(caseRng(seed, family, i), id).runImpl()
+			}
 			c := gen(caseRng(seed, family, i), id)
 			if os.Getenv("VERIF_DEBUG_CASE") != "" {
 				fmt.Fprintln(os.Stderr, c.sx())
